@@ -8,6 +8,7 @@
 -/
 import Tranp.Lemmas.Lexer
 import Tranp.Lemmas.LexerShape
+import Tranp.Lemmas.LexerTail
 import Tranp.Generated.TokenDef
 import Tranp.Generated.LexerShape
 
@@ -571,6 +572,43 @@ example :
       commentLineInsertOK pyDef src 28 [' '] ['!'] (['#'], ['\n']) &&
       !blankInsertOK pyDef ['y','=','-','a'] 3 [' '] && blankInsertOK pyDef ['y','=','-','a'] 2 [' ']) = true := by
   decide +kernel
+
+/-! ### the end of the source as a layout position -/
+
+/-- **END TO END: white space after the last token.** `a` is a sequence of whole tokens (`TokPrefix`: the last one is not
+    white space, a comment only in front of a newline, string literals terminated); appending any white space — blanks, a
+    final newline, blank lines — leaves `Tokenizer.parse` unchanged up to source maps. The last token may be anything else,
+    in particular a combined symbol or a minus sign ending exactly at the end of the input. -/
+theorem layout_chars_trailing (d : TokenDef) (hr : layoutReady d) (a run : Str) (ta : List (Nat × Str))
+    (hne : run ≠ []) (hall : ∀ c ∈ run, d.whiteSpace.contains c = true) (hpre : TokPrefix d [] run a ta) :
+    (tokenize d a).map (List.map simplify) = (tokenize d (a ++ run)).map (List.map simplify) :=
+  layout_trailing hr a run hne hall hpre
+
+/-- **The tail by position**: any two white space tails (possibly empty) after the tokens of `a` give the same
+    `Tokenizer.parse` up to source maps, whenever the decidable check `tailOK` passes for both. -/
+theorem layout_tail_by_position (d : TokenDef) (hr : layoutReady d) (a run run' : Str)
+    (h : tailOK d a run = true) (h' : tailOK d a run' = true) :
+    (tokenize d (a ++ run)).map (List.map simplify) = (tokenize d (a ++ run')).map (List.map simplify) :=
+  layout_tail_at hr a run run' h h'
+
+/-- **Closure with the tail**: `LayoutEqT` = the equivalence generated by the layout steps of `layout_closure` and the
+    replacement of the white space after the last token; equivalent sources have the same `Tokenizer.parse`. -/
+theorem layout_closure_tail (d : TokenDef) (hr : layoutReady d) (s s' : Str) (h : LayoutEqT d s s') :
+    (tokenize d s).map (List.map simplify) = (tokenize d s').map (List.map simplify) :=
+  h.tokenize hr
+
+/-- non-vacuity (decided in the kernel): a source ending in the combined symbol `-=` inside a block, in a minus sign, in a
+    name — with no tail, a final newline, blanks or blank lines; after a comment only a tail starting with a newline is
+    accepted, after white space none -/
+example :
+    let a : Str := ['i','f',' ','a',':','\n','\t','x',' ','-','=']
+    (tailOK pyDef a [] && tailOK pyDef a ['\n'] && tailOK pyDef a [' ',' '] && tailOK pyDef a ['\n','\n','\t'] &&
+      tailOK pyDef ['a',' ','-'] [' '] && tailOK pyDef ['a'] ['\t','\n'] &&
+      tailOK pyDef ['a',' ','#','c'] ['\n'] && !tailOK pyDef ['a',' ','#','c'] [' '] && !tailOK pyDef ['a',' '] [' ']) = true := by
+  decide +kernel
+
+example : (tokenize pyDef ['x',' ','-','=']).map (List.map simplify) = (tokenize pyDef ['x',' ','-','=','\n']).map (List.map simplify) :=
+  layout_tail_by_position pyDef pyDef_layoutReady ['x',' ','-','='] [] ['\n'] (by decide +kernel) (by decide +kernel)
 
 /-! ### the control flow of the code as generated data (translate/gen_lexer_shape.py → Generated/LexerShape.lean) -/
 
